@@ -94,7 +94,7 @@ theorem step_farwf (cfg : Cfg) (w : World) (ev : Ev) (hI : Inv cfg w) (hW : FarW
     · exact sub _ (same_sessions_mem w a { w.conn a with apps := apps } hI.keys rfl (w.setConn a { w.conn a with apps := apps }) (setConn_conns _ _ _))
   | est a lseid r =>
     show FarWf (establish cfg w a lseid r).1
-    rcases establish_cases cfg w a lseid r with ⟨hc, _, _⟩ | ⟨s, hl, _, hc, hfars⟩
+    rcases establish_cases cfg w a lseid r with ⟨hc, _, _⟩ | ⟨s, hl, _, hc, hfars, _⟩
     · exact sub _ (fun s hs => by unfold allSessions at hs ⊢; rw [hc] at hs; exact hs)
     · intro x hx
       have hp := append_session_perm w a s hI.keys
